@@ -324,7 +324,7 @@ struct Pool {
             // every set name the generator uses, reached through a pointer-to-value and NOT in sorted order: a sort= or
             // group= on such a set has to work on a private copy (index of this value: pointer_sets)
             static const char *tdocs[] = {"[30,10,20,\"b\",\"a\",5.5]", "[{\"y\":3,\"m\":1},{\"y\":1,\"m\":2},{\"y\":2,\"m\":0},{\"y\":1,\"m\":9}]",
-                                          "{\"z\":1,\"a\":2,\"m\":3}", "[[3],[1,2],[0]]", "[9,8,7]"};
+                                          "{\"z\":1,\"a\":2,\"m\":3}", "[[3],[1,2],[0]]", "[9]"}; // ("one" stays a one-item set: the 255-deep loop family multiplies by its size)
             static const char *names[] = {"list", "recs", "obj", "arr2", "one"};
             targets.reserve(8);
             Value<C> x;
